@@ -603,6 +603,10 @@ def DDL(ctx, d):
     if "meta" in d:
         m = build_meta(d["meta"])
         tables = {t.name: t for t in m.tables.values()}
+    elif op in ("add_constraint", "drop_constraint"):
+        # AddConstraint / DropConstraint re-wire the constraint's _create_rule (it is then no longer rendered inline by
+        # CREATE TABLE): never do that to the shared world; use a private copy of its tables
+        tables = World(ctx.w.schemas, naming=ctx.w.metadata.naming_convention if ctx.w.metadata.naming_convention != MetaData().naming_convention else None, orm=False).tables
     else:
         m = ctx.w.metadata
         tables = ctx.w.tables
@@ -1717,3 +1721,11 @@ def dbapi_call(dialect, compiled, stmt=None, params=None, ext=None, pd=None, hit
         cache_hit=hit if hit is not None else CacheStats.CACHING_DISABLED, param_dict=pd)
     p = ctx.parameters
     return ctx.statement, (p[0] if len(p) == 1 else p)
+
+
+def ddl_call(dialect, compiled_ddl, execution_options=None):
+    """the statement string the real DefaultExecutionContext._init_ddl hands to cursor.execute (schema translation applied)"""
+    from sqlalchemy.util import immutabledict
+    conn = _FakeConnection(dialect, execution_options)
+    ctx = dialect.execution_ctx_cls._init_ddl(dialect, conn, _FakeDBAPIConnection(), immutabledict(execution_options or {}), compiled_ddl)
+    return ctx.statement
